@@ -57,7 +57,8 @@ ASSUMPTIONS = [
     "(worst relative deviation of any compared field is recorded in the evidence)",
     "scipy.ndimage.label / find_objects / maximum_filter / minimum_filter behave as modelled (8- and 4-connected "
     "components numbered in raster order; 3x3 filters with reflect boundary); sampled by the correspondence",
-    "images are finite (no NaN/inf pixels) in the curvature model; blank pixels are modelled only in detection",
+    "NaN pixels are modelled in detection and in the curvature (scipy's rank filters as the ring algorithm of "
+    "ni_filters.c, separable, reflect boundary: tied to scipy by the curvature correspondence); +-inf pixels are not generated",
     "exclusion bands of the run-pair comparison (false-alarm control, each counted in the histogram): (i) islands fitted "
     "with as many free parameters as pixels: the FITERR bit and err_* are not judged (zero residual up to round-off decides "
     "whether lmfit reports error bars); (ii) a deviation above TOL on an island whose initial parameters are exact mirror "
@@ -160,13 +161,23 @@ def gen_sources(rng, n, allow_blend=True):
     for t, (ci, cj) in enumerate(cells[:k]):
         x0 = ci * cell + cell / 2 + rng.uniform(-2.5, 2.5)
         y0 = cj * cell + cell / 2 + rng.uniform(-2.5, 2.5)
+        if rng.random() < 0.3:
+            # push a source of a border cell against the image border
+            if ci == 0:
+                x0 = rng.uniform(0.6, 3.0)
+            elif ci == n // cell - 1:
+                x0 = n - 1 - rng.uniform(0.6, 3.0)
+            if cj == 0 and rng.random() < 0.5:
+                y0 = rng.uniform(0.6, 3.0)
+            elif cj == n // cell - 1 and rng.random() < 0.5:
+                y0 = n - 1 - rng.uniform(0.6, 3.0)
         sign = 1.0 if t % 2 == 0 else -1.0
         if t >= 2 and rng.random() < 0.3:
             sign = rng.choice([1.0, -1.0])
         amp = sign * rng.choice([8.0, 12.0, 20.0, 35.0, 60.0]) * rng.uniform(0.9, 1.1)
         ext = rng.choice([1.0, 1.0, 1.25, 1.5])
         srcs.append([round(x0, 3), round(y0, 3), round(amp, 4), ext])
-        if allow_blend and rng.random() < 0.2:
+        if allow_blend and rng.random() < 0.3:
             # a same-sign neighbour 3.5-4.5 px away: one island, two summits, still single-sign
             ang = rng.uniform(0, 2 * math.pi)
             d = rng.uniform(3.5, 4.5)
@@ -179,6 +190,33 @@ def gen_sources(rng, n, allow_blend=True):
             srcs.append([round(x0 + d * math.cos(ang), 3), round(y0 + d * math.sin(ang), 3),
                          round(-amp * rng.uniform(0.6, 0.9), 4), 1.0])
     return srcs
+
+
+def gen_blanks(rng, n, srcs):
+    """blank (NaN) pixels touching the extreme pixel of some sources: an isolated NaN pixel among its 8 neighbours, a
+    blanked block starting right next to it, or a blanked image corner / edge strip"""
+    out = []
+    for x0, y0, amp, ext in srcs:
+        u = rng.random()
+        px, py = int(round(x0)), int(round(y0))
+        if u < 0.25:
+            dx, dy = rng.choice([(-1, -1), (-1, 0), (-1, 1), (0, -1), (0, 1), (1, -1), (1, 0), (1, 1)])
+            out.append([px + dx, px + dx + 1, py + dy, py + dy + 1])
+        elif u < 0.5:
+            side = rng.choice(['up', 'down', 'left', 'right'])
+            a, b = rng.randint(2, 6), rng.randint(3, 9)
+            if side == 'right':
+                out.append([px - b // 2, px - b // 2 + b, py + 1, py + 1 + a])
+            elif side == 'left':
+                out.append([px - b // 2, px - b // 2 + b, py - a, py])
+            elif side == 'down':
+                out.append([px + 1, px + 1 + a, py - b // 2, py - b // 2 + b])
+            else:
+                out.append([px - a, px, py - b // 2, py - b // 2 + b])
+    if rng.random() < 0.3:
+        k = rng.randint(2, 6)
+        out.append(rng.choice([[0, k, 0, n], [n - k, n, 0, n], [0, n, 0, k], [0, k + 3, 0, k + 3]]))
+    return [[int(max(v, 0)) for v in b] for b in out]
 
 
 def render(n, srcs, noise_seed, noise_level=1.0):
@@ -218,6 +256,8 @@ def build_case(case):
         rms = scale * (1.0 + 0.25 * (x + 0.5 * y) / n)
         bkg = scale * (0.4 * np.sin(x / n * 2.0) - 0.3 * y / n + 0.1)
     im = sig * scale + nz * rms * case.get('noise', 1.0) + bkg
+    for r0, r1, c0, c1 in case.get('blanks', []):
+        im[max(r0, 0):max(r1, 0), max(c0, 0):max(c1, 0)] = np.nan
     return im, bkg, rms
 
 
@@ -571,6 +611,9 @@ def judge_islands(ctx, case, impl, line):
              dict(what='islands-model'))
 
 
+ctx_count_blank = [0]
+
+
 def est_lines(e, img, lines, todo, case):
     """driver lines for one recorded estimate call"""
     h, w = e['data'].shape
@@ -580,6 +623,8 @@ def est_lines(e, img, lines, todo, case):
     r0, c0 = max(xmin - 1, 0), max(ymin - 1, 0)
     r1, c1 = min(xmax + 1, H), min(ymax + 1, W)
     sub = img[r0:r1, c0:c1]
+    if np.isnan(sub).any():
+        ctx_count_blank[0] += 1
     lines.append(f"curve {H} {W} {xmin} {xmax} {ymin} {ymax} {r0} {c0} {sub.shape[0]} {sub.shape[1]} {fl(sub)}")
     todo.append(('curve', case, e))
     est_only(e, lines, todo, case)
@@ -705,9 +750,11 @@ def gen_image_case(ctx, mode, k):
     rng = ctx.rng
     n = rng.choice([48, 64, 80])
     inner, outer = rng.choice([(5, 4), (5, 4), (6, 3), (8, 4), (5, 5)])
-    return dict(kind='image', n=n, mode=mode, noise_seed=rng.randrange(1 << 30), srcs=gen_sources(rng, n),
+    srcs = gen_sources(rng, n)
+    return dict(kind='image', n=n, mode=mode, noise_seed=rng.randrange(1 << 30), srcs=srcs,
+                blanks=(gen_blanks(rng, n, srcs) if k % 2 == 0 else []),
                 inner=inner, outer=outer, scale=rng.choice([1.0, 0.01, 3.0]),
-                max_summits=(rng.choice([None, None, 1]) if k % 3 == 2 else None))
+                max_summits=rng.choice([None, None, 1, 2]))
 
 
 # the open known finding: a +1.0 and a -0.8 source (units of 100 sigma) blended into one island
@@ -723,6 +770,17 @@ WITNESS_APART = dict(kind='image', n=48, mode='forced', noise_seed=1, noise=0.0,
 # fits end 0.9 (relative) apart
 WITNESS_FLAT = dict(kind='image', n=32, mode='forced', noise_seed=1, noise=0.0, bkg=0.0, scale=1.0, inner=5, outer=4,
                     srcs=[[15.0, 15.0, 40.0, 2.0]], blocks=[[16, 15, [[28.45] * 3] * 3]], max_summits=None)
+
+
+# sources of both signs whose extreme pixel touches blank pixels: a blanked block to the right of a -30 and of a +28 sigma
+# source, an isolated NaN pixel diagonal to the extreme pixel of a -22 / +25 sigma pair, one of each sign against the image
+# border with a blanked edge strip; blended same-sign pairs with max_summits = 1
+WITNESS_BLANK = dict(kind='image', n=80, mode='forced', noise_seed=20240913, noise=1.0, bkg=0.7, scale=0.25, inner=5, outer=4,
+                     srcs=[[20.0, 20.0, -30.0, 1.0], [22.0, 58.0, 28.0, 1.0], [60.0, 40.0, -22.0, 1.0], [60.0, 62.0, 25.0, 1.0],
+                           [1.4, 40.3, -40.0, 1.0], [40.2, 78.1, 35.0, 1.0], [42.0, 18.0, -24.0, 1.0], [45.6, 19.2, -18.0, 1.0],
+                           [76.0, 12.0, 26.0, 1.0], [72.5, 13.4, 19.0, 1.0]],
+                     blanks=[[14, 27, 21, 30], [16, 29, 59, 68], [61, 62, 41, 42], [59, 60, 61, 62], [0, 1, 30, 50],
+                             [30, 50, 79, 80]], max_summits=1)
 
 
 def corpus_cases():
@@ -872,6 +930,8 @@ def new_stats():
 
 
 def finish_stats(ctx, stats):
+    ctx.count('curvature-windows-with-blank-pixels', ctx_count_blank[0])
+    ctx_count_blank[0] = 0
     ctx.extra['negation_tolerance'] = TOL
     ctx.extra['negation_worst_relative_deviation_single_sign_islands'] = stats['worst']
     ctx.extra['negation_worst_by_field'] = {k: num(v) for k, v in sorted(stats['worst_by_field'].items())}
@@ -888,6 +948,8 @@ def run(ctx):
     image_case(ctx, WITNESS_MIXED, lines, todo, stats, full_polarity=False)
     image_case(ctx, WITNESS_APART, lines, todo, stats, full_polarity=True)
     image_case(ctx, WITNESS_FLAT, lines, todo, stats, full_polarity=False)
+    image_case(ctx, WITNESS_BLANK, lines, todo, stats, full_polarity=True)
+    image_case(ctx, dict(WITNESS_BLANK, mode='file', max_summits=2), lines, todo, stats, full_polarity=False)
     for c in corpus_cases():
         image_case(ctx, c, lines, todo, stats, full_polarity=False)
     injected_filter_case(ctx, lines, todo)
